@@ -37,6 +37,7 @@ var (
 	selftest = flag.Bool("selftest-determinism", false, "run the determinism self-test")
 	budgetS  = flag.Int("budget", 0, "thorough tier wall-clock budget in seconds")
 	noEvid   = flag.Bool("no-evidence", false, "do not write the evidence file")
+	envVarsF = flag.String("envvars", "", "envvars.json written by envscan: environment variables the tree under test reads")
 	par      = flag.Int("par", 0, "parallel processes")
 	quickN   = flag.Int("quick-procs", 0, "override the number of simulation processes of the quick tier")
 	oneSeed  = flag.Uint64("proc-seed", 0, "debug: run only the simulation process with this process seed")
@@ -127,15 +128,20 @@ func referencePass(pool []*c14sim.Key, poolPath string, parallel int) (excluded 
 			continue
 		}
 		kb, _ := json.Marshal(&c14sim.Key{ID: k.ID, API: k.API, Source: k.Source, Params: k.Params, Extra: k.Extra})
-		again = append(again, &drv.Job{Name: fmt.Sprint(k.ID), Argv: []string{*refBin}, Stdin: kb, Timeout: 10 * time.Second, Dir: *work})
+		// the second process runs in a different ENVIRONMENT (seeded): the result may depend on the key only
+		again = append(again, &drv.Job{Name: fmt.Sprint(k.ID), Argv: []string{*refBin}, Stdin: kb, Timeout: 10 * time.Second, Dir: *work, Env: perturbedEnv(k)})
 		idx = append(idx, i)
 	}
 	drv.RunPool(again, parallel, nil, nil)
 	for n, j := range again {
 		k := pool[idx[n]]
 		if !j.TimedOut && j.ExitCode == 0 && string(j.Stdout) != k.Ref {
-			loneDisagree = append(loneDisagree, &finding{Class: "lone-calls-disagree", Pool: []*c14sim.Key{k},
-				Detail: fmt.Sprintf("two lone first calls with the same source and parameters, each in a fresh process, gave different results:\n      %s\n      %s", clip(k.Ref, 600), clip(string(j.Stdout), 600))})
+			envNote := ""
+			if len(again[n].Env) > 0 {
+				envNote = fmt.Sprintf(" (the second one with the environment changed: %q)", again[n].Env)
+			}
+			loneDisagree = append(loneDisagree, &finding{Class: "lone-calls-disagree", Pool: []*c14sim.Key{k}, Env: again[n].Env,
+				Detail: fmt.Sprintf("two lone first calls with the same source and parameters, each in a fresh process%s, gave different results:\n      %s\n      %s", envNote, clip(k.Ref, 600), clip(string(j.Stdout), 600))})
 		}
 	}
 	if err := drv.WriteJSON(poolPath, pool); err != nil {
@@ -147,12 +153,62 @@ func referencePass(pool []*c14sim.Key, poolPath string, parallel int) (excluded 
 // loneDisagree collects keys whose reference is not a function of the key (filled by referencePass).
 var loneDisagree []*finding
 
-// refsDisagree runs n lone first calls of key k in fresh processes and reports two differing results, if any.
-func refsDisagree(k *c14sim.Key, n, parallel int) (bool, string, string) {
+// envVars is the table written by envscan (nil if the tree reads no environment variable).
+var envVars struct {
+	Vars    map[string][]string `json:"vars"`
+	Dynamic []string            `json:"dynamic"`
+}
+var envPerturbed int
+
+func loadEnvVars() {
+	if *envVarsF == "" {
+		return
+	}
+	if err := drv.ReadJSON(*envVarsF, &envVars); err != nil {
+		fatal("%v", err)
+	}
+}
+
+// perturbedEnv is the seeded environment change for the second lone first call of key k (DESIGN.md §4.10):
+// every variable the tree reads gets a candidate value (or stays unset, 1 in 4), and a few variables that
+// programs commonly consult get unusual values. Go's own runtime knobs (GODEBUG, GOGC, GOMAXPROCS, …) are
+// left alone.
+func perturbedEnv(k *c14sim.Key) []string {
+	r := prng.Sub(*seedFlag, "c14-env", uint64(k.ID))
+	env := []string{
+		"TZ=" + []string{"Pacific/Kiritimati", "UTC", "America/St_Johns", ""}[r.Intn(4)],
+		"LANG=" + []string{"tr_TR.UTF-8", "C", "de_DE.ISO-8859-1"}[r.Intn(3)],
+		"LC_ALL=" + []string{"tr_TR.UTF-8", "C", "ja_JP.eucJP"}[r.Intn(3)],
+		"COLUMNS=" + []string{"1", "40", "9999"}[r.Intn(3)],
+		"NO_COLOR=" + []string{"", "1"}[r.Intn(2)],
+	}
+	names := make([]string, 0, len(envVars.Vars))
+	for n := range envVars.Vars {
+		names = append(names, n)
+	}
+	sort.Strings(names)
+	for _, n := range names {
+		c := envVars.Vars[n]
+		if len(c) == 0 || r.Chance(1, 4) {
+			continue
+		}
+		env = append(env, n+"="+c[r.Intn(len(c))])
+	}
+	envPerturbed++
+	return env
+}
+
+// refsDisagree runs n lone first calls of key k in fresh processes — every second one in environment env, if
+// given — and reports two differing results, if any.
+func refsDisagree(k *c14sim.Key, n, parallel int, env ...string) (bool, string, string) {
 	kb, _ := json.Marshal(&c14sim.Key{ID: k.ID, API: k.API, Source: k.Source, Params: k.Params, Extra: k.Extra})
 	var jobs []*drv.Job
 	for i := 0; i < n; i++ {
-		jobs = append(jobs, &drv.Job{Name: fmt.Sprint(i), Argv: []string{*refBin}, Stdin: kb, Timeout: 10 * time.Second, Dir: *work})
+		j := &drv.Job{Name: fmt.Sprint(i), Argv: []string{*refBin}, Stdin: kb, Timeout: 10 * time.Second, Dir: *work}
+		if i%2 == 1 {
+			j.Env = env
+		}
+		jobs = append(jobs, j)
 	}
 	drv.RunPool(jobs, parallel, nil, nil)
 	first, have := "", false
@@ -332,6 +388,7 @@ type finding struct {
 	V        *c14sim.Violation
 	Stderr   string
 	Pool     []*c14sim.Key
+	Env      []string // lone-calls-disagree: the environment of the second process
 }
 
 func newAgg() *agg {
@@ -433,6 +490,7 @@ func main() {
 	if err := drv.ReadJSON(*sitesF, &sites); err != nil {
 		fatal("%v", err)
 	}
+	loadEnvVars()
 	parallel := *par
 	if parallel <= 0 {
 		parallel = runtime.NumCPU()
